@@ -11,7 +11,8 @@ From FIM Require Import Model.Cbm14Spec Proofs.Cbm14Assoc Proofs.Cbm14Merge Proo
      Proofs.Cbm14Hist Proofs.Cbm14Dec.
 From FIM Require Model.Cbm14Store Model.Cbm14Check Model.Cbm14Abs Proofs.Cbm14Frame Proofs.Cbm14RefBase Proofs.Cbm14RefMerge
      Proofs.Cbm14RefUnmerge Proofs.Cbm14RefSnap Proofs.Cbm14RefHist Proofs.Cbm14RefOrder
-     Proofs.Cbm14RefEdge Proofs.Cbm14RefEdgeMerge Proofs.Cbm14RefEdgeOps Proofs.Cbm14RefFull.
+     Proofs.Cbm14RefEdge Proofs.Cbm14RefEdgeMerge Proofs.Cbm14RefEdgeOps Proofs.Cbm14RefFull
+     Proofs.Cbm14Refusal.
 Import ListNotations.
 Open Scope N_scope.
 
@@ -406,6 +407,34 @@ Theorem C14_store_order_independent : forall cbm st hs l1 l2 st1 hs1 st2 hs2,
   eqv (Cbm14Abs.abs_cbm cbm st1) (Cbm14Abs.abs_cbm cbm st2).
 Proof. exact Cbm14RefFull.store_order_independent. Qed.
 Print Assumptions C14_store_order_independent.
+
+(* ---- REFUSALS, on the store-level model (which predicts the partial effects too: Cbm14Check.step_o replays the
+   recorded order in which the code met the common nodes).  The property wants a refusal to change nothing; the
+   code falls short three times (known findings F5, F6, F7, each replayed on the implementation):
+   FULL statement: step_o cbm o ord st = OErr e st' -> st' = st  (for merges and rollbacks) ---- *)
+Theorem C14_refused_merge_not_atomic_refuted :
+  exists st', Cbm14Check.step_o 0 (Cbm14Check.OpMerge 2 101) [11; 10] Cbm14Refusal.rf_merged = Cbm14Store.OErr Cbm14Store.EPGQ st' /\
+              Cbm14Store.view_of 0 st' <> Cbm14Store.view_of 0 Cbm14Refusal.rf_merged /\ Cbm14Store.gexists 101 st' = true /\
+              exists st'', Cbm14Check.step_o 0 (Cbm14Check.OpMerge 2 101) [10; 11] Cbm14Refusal.rf_merged = Cbm14Store.OErr Cbm14Store.EPGQ st'' /\
+                           Cbm14Store.view_of 0 st'' = Cbm14Store.view_of 0 Cbm14Refusal.rf_merged /\
+                           Cbm14Store.gexists 101 st'' = true.
+Proof. exact Cbm14Refusal.refused_merge_not_atomic. Qed.
+Print Assumptions C14_refused_merge_not_atomic_refuted.
+
+Theorem C14_remerge_not_refused_refuted :
+  exists s1 s2 s3, Cbm14Store.merge_adm 0 1 100 Cbm14Refusal.rm_store = Cbm14Store.OOk s1 /\
+                   Cbm14Store.merge_adm 0 1 101 s1 = Cbm14Store.OOk s2 /\
+                   map Cbm14Store.n_si (Cbm14Store.of_gid 0 s2) = [Cbm14Store.SIds [1; 1]; Cbm14Store.SIds [1; 1]] /\
+                   Cbm14Store.unmerge_adm 0 1 s2 = Cbm14Store.OOk s3 /\
+                   map Cbm14Store.n_si (Cbm14Store.of_gid 0 s3) = [Cbm14Store.SIds [1]; Cbm14Store.SIds [1]].
+Proof. exact Cbm14Refusal.remerge_not_refused. Qed.
+Print Assumptions C14_remerge_not_refused_refuted.
+
+Theorem C14_rollback_unknown_destroys_refuted :
+  exists s1 s2, Cbm14Store.merge_adm 0 1 100 Cbm14Refusal.rm_store = Cbm14Store.OOk s1 /\ Cbm14Store.gexists 0 s1 = true /\
+                Cbm14Store.rollback 0 55 s1 = Cbm14Store.OErr Cbm14Store.EAssert s2 /\ Cbm14Store.gexists 0 s2 = false.
+Proof. exact Cbm14Refusal.rollback_unknown_destroys. Qed.
+Print Assumptions C14_rollback_unknown_destroys_refuted.
 
 (* ---- non-vacuity ---- *)
 Example C14_ex_consistent_family : consistent [A1; A2; A3] /\ Forall wf_adm [A1; A2; A3].
